@@ -35,7 +35,7 @@ def gen_date(rng):
         # a bound of a timezone-aware column: seconds or a fraction, then a UTC offset (whole and half hours, either sign)
         return '%04d-%02d-%02d %02d:%02d:%02d%s%s' % (
             rng.choice([1999, 2000, 2021, 2038]), rng.randint(1, 12), rng.randint(1, 28), rng.randint(0, 23), rng.randint(0, 59),
-            rng.randint(0, 59), rng.choice(['', '', '.%06d' % rng.randrange(10 ** 6), '.5']),
+            rng.randint(0, 59), rng.choice(['', '', '.%06d' % rng.randrange(10 ** 6), '.5', '.12345678901']),
             rng.choice(['+00:00', '-00:00', '+01:00', '-05:00', '+05:30', '-03:30', '-00:30', '+05:45', '-09:30', '+14:00', '-12:00',
                         '+23:59', '-23:59', '+24:00', '-24:00', '+25:00', '+00:60', '+12:99']))
     return '%04d-%02d-%02d %02d:%02d:%02d.%06d' % (rng.choice([1999, 2000, 2021, 2038]), rng.randint(1, 12), rng.randint(1, 28),
@@ -195,7 +195,7 @@ class C09(core.Prop):
     lean_modules = ['TddaVerif.Props.C09']
     theorems = ['TddaVerif.Props.C09.' + t for t in ['getDate_strDatetime', 'load_dump', 'dump_load_dump', 'same_constraints',
         'unknown_ignored', 'hash_key_silent', 'stripLines_no_trailing_ws', 'stripLines_id', 'stripLines_lines']]
-    quick_n = 300
+    quick_n = 900
     thorough_n = 20000
     rule = ('cases: constraint sets in the documented dictionary format: 1..4 fields with unicode / quote / backslash / '
             'line-separator names, every kind, null values, precision-qualified and date-valued bounds (date only, '
@@ -258,7 +258,9 @@ class C09(core.Prop):
                                    for o_ in ('+00:00', '-03:30', '-00:30', '+05:45', '+24:00', '-23:59', '+1:00', '+01:0', '+0100',
                                               ' +01:00', '+01:00:00', 'Z', '+01:00\n', '-00:00')] + ['2021-02-30', '2020-13-01', '2020-1-2', '2020-01-02 3:04:05', '2020-01-02 03:04:05.5',
                                    '2020-01-02 03:04', '20200102', '2020-01-02x', '2020-01-02\n', '0000-01-01',
-                                   '2020-01-02 24:00:00', '2020-01-02 03:04:05.1234567', 'abc', ''])
+                                   '2020-01-02 24:00:00', '2020-01-02 03:04:05.1234567', 'abc', '',
+                                   '2020-01-02 03:04:05.12345678901', '2020-01-02 03:04:05.2147483648+01:00', '2020-01-02 03:04:05.999999',
+                                   '99999999999-01-02', '2020-01-02 03:04:05.0000001'])
         out = [base]
         if base and rng.random() < 0.5:
             i = rng.randrange(len(base))
@@ -334,7 +336,11 @@ class C09(core.Prop):
         out.append([[name, [[k, jv_obj(v, from_dict=True)] for k, v in f.items()]] for name, f in td.items()])
         for s_ in self._date_strings(case):
             with quiet(), contextlib.redirect_stdout(io.StringIO()):
-                r = B.get_date(s_)
+                try:
+                    r = B.get_date(s_)
+                except Exception as e:   # noqa  (the model has no such outcome: a disagreement, then the oracle's business)
+                    out.append({'exc': type(e).__name__})
+                    continue
             if isinstance(r, dt.datetime):
                 out.append(dt_json(r))
             else:
